@@ -44,7 +44,8 @@ def run(tier, seed):
     rng = random.Random(seed * 19 + 19)
     res = core.Result("C19")
     res.rule = ("dimensions 1-2 exhaustively over bounds in -3..3 with mins <= maxs (every box vector and every vector of the box enlarged by 2), "
-                "dimensions 3-4 sampled (thorough: dimension 3 exhaustive over -2..2); distinct non-trivial = boxes with a non-zero lower bound")
+                "dimensions 3-4 sampled (thorough: dimension 3 exhaustive over -2..2); boxes whose extents (127..129, 255..257, 2^15, 2^16 rows) or "
+                "coordinates lie at the boundaries of the narrow integer types; distinct non-trivial = boxes with a non-zero lower bound")
     ops = []
     for dim in (1, 2):
         for mins, maxs in boxes(dim, -3, 3):
@@ -59,6 +60,19 @@ def run(tier, seed):
         mins = [rng.randint(-3, 3) for _ in range(dim)]
         maxs = [m + rng.randint(0, 3 if dim == 3 else 2) for m in mins]
         ops.append({"op": "space", "mins": mins, "maxs": maxs})
+    # sizes and coordinate values at the boundaries of the narrow integer types (2^7, 2^8, 2^15, 2^16): extents of exactly 127..129, 255..257 rows in
+    # either position of a 1-3 dimensional box, long single dimensions, and lower bounds / coordinates beyond the int8 / int16 ranges
+    edge = []
+    for span in (127, 128, 129, 255, 256, 257):
+        for lo in (0, 1, -5, -span + 1):
+            edge.append(([lo], [lo + span - 1]))
+        edge.append(([0, 0], [span - 1, 1])); edge.append(([-1, 0], [0, span - 1])); edge.append(([0, 2, 0], [1, span + 1, 1]))
+    for span in ((32768, 65536) if tier == "quick" else (32767, 32768, 32769, 65535, 65536, 65537)):
+        edge.append(([0], [span - 1])); edge.append(([-3], [span - 4]))
+    for lo in (-129, -128, 126, 127, 254, 255, -32769, 32766, 65534, 70000, -70000):
+        edge.append(([lo], [lo + 3])); edge.append(([0, lo], [1, lo + 2]))
+    for mins, maxs in edge:
+        ops.append({"op": "space", "mins": mins, "maxs": maxs, "_edge": True})
     W = 8
     chunks = [ops[i::W] for i in range(W)]
     outs = session.run_sessions_parallel([(c, 1) for c in chunks], workers=W)
@@ -71,6 +85,8 @@ def run(tier, seed):
             else:
                 res.count("zero-lower-bound")
             res.count(f"dim={len(op['mins'])}")
+            if op.get("_edge"):
+                res.count("integer-type-boundary-box")
             if any(a == b for a, b in zip(op["mins"], op["maxs"])):
                 res.count("zero-width-dimension")
             if m != i:
